@@ -163,6 +163,8 @@ def run(prog, chk):
     # carries `fixed`/precision from one echoed value into the next; a cached result survives a shot).  Same rule as C18's R18.2,
     # restricted to the evaluator and the simulator.
     chk.rule('R07.10', 'no mutable static or thread-local storage in the evaluator: evaluation depends on the program state only')
+    chk.rule('R07.11', 'an int bound to a slot declared long is widened at every binding site (declarations, parameters, returns, field stores, assignments)')
+    _declared_long_rule(prog, chk, R)
     nst = 0
     for key, gl in prog.facts.globals.items():
         if not (gl['file'].endswith('runtime_evaluator.cpp') or gl['file'].endswith('runtime_evaluator.hpp')):
@@ -328,6 +330,106 @@ def value_array_subscripts(prog, chk, R, rule):
                        '%s(…) subscripts %s.%s[%s] for kind %s: the call needs the dominating test %s < 0 || %s >= <length of that array> (found lower=%s upper=%s)' % (
                            h.short, SX.show(_peel(a_arr))[:20], base['name'], jt, kind, jt, jt, lo2, hi2), key='subscript:%s:%s:%s' % (f2.short, h.short, base['name']))
     chk.count('computed subscripts of value arrays', nsub, 12)
+
+
+
+def _declared_long_rule(prog, chk, R):
+    """R07.11 — `long` is 64 bits wherever a value sits in a slot declared long: an int bound to such a slot is converted, not just
+    stored (`long c = 2000000000; c + c` was computed — and wrapped — at 32 bits, like an int argument bound to a long parameter or an
+    int returned as long).  The binding sites are the ones C08's R08.4 enumerates: every one of them passes the value through a
+    function that stamps the declared class.  So: (a) a widening function exists (by effect: its Value& parameter's kind is set to
+    Long and the long payload copied from the int payload, under a test for the Int kind); (b) every stamping function calls it on
+    its value parameter under a condition that mentions the Long kind / the type name "long"; (c) in `assign`, every store into an
+    existing slot is preceded by a call of it on the stored copy."""
+    from .C08 import _stamp_functions
+    evfile = R.ev_method('execute').file
+    fns = [f for f in prog.functions if f.body and f.file == evfile and f.kind in ('function', 'method')]
+    wid = []
+    for f in fns:
+        if len(f.params) != 1 or not f.params[0]['type'].replace(' ', '').endswith('Value&') or 'const' in f.params[0]['type']:
+            continue
+        pid = f.params[0]['id']
+        sets_long = copies = tests_int = False
+        for n in SX.walk(f.body, into_lambdas=False):
+            w = SX.write_target(n)
+            if w and SX.is_node(SX.strip(w[0])) and SX.strip(w[0]).get('k') == 'member' and SX.strip(SX.strip(w[0])['base']).get('id') == pid:
+                nm = SX.strip(w[0])['name']
+                if nm == 'type' and 'Type::Long' in SX.show(w[1]).replace('Value::', '') or (nm == 'type' and SX.show(w[1]).endswith('Long')):
+                    sets_long = True
+                if nm == 'longValue' and any(y.get('k') == 'member' and y.get('name') == 'intValue' for y in SX.walk(w[1])):
+                    copies = True
+            if n.get('k') in ('if',) and any(y.get('k') == 'ref' and y.get('kind') == 'enum' and y['name'].endswith('Type::Int') for y in SX.walk(n.get('c'))):
+                tests_int = True
+        if sets_long and copies and tests_int:
+            wid.append(f)
+    chk.ob('R07.11', R.ev_method('execute'), 1, len(wid) == 1, 'exactly one function turns an int Value into a long Value in place (found %s)' % [f.short for f in wid], key='widener')
+    if len(wid) != 1:
+        return
+    W = wid[0]
+    stampers = _stamp_functions(prog, R)
+    n = 0
+    for key, (idx, f) in sorted(stampers.items()):
+        vp = f.params[idx]['id']
+        direct = [c for c in SX.walk(f.body, into_lambdas=False) if c.get('k') == 'call' and c.get('callee') == W.name and SX.real_args(c) and SX.strip(SX.real_args(c)[0]).get('id') == vp]
+        # or it hands the value on to another stamping function unconditionally as its last act (which widens)
+        via = [c for c in SX.walk(f.body, into_lambdas=False) if c.get('k') in ('call', 'mcall') and any(t.key in stampers and t is not f for t in prog.resolve(c))
+               and any(SX.is_node(SX.strip(a)) and SX.strip(a).get('id') == vp for a in SX.real_args(c))]
+        ok = False
+        why = 'no call of %s on the value' % W.short
+        g = prog.cfg(f)
+        for c in direct:
+            node = [x for x in g.nodes if x.kind == 'call' and x.e is c]
+            gs = g.guards(node[0]) if node else []
+            txt = ' '.join(SX.show(ce) for ce, pol, _ in gs)
+            if gs and ('Long' in txt or '"long"' in txt):
+                # the test that leads here is made before any early-out on the value's kind (an int is not an object reference)
+                first = min(x.id for x in g.nodes if x.kind == 'cond') if any(x.kind == 'cond' for x in g.nodes) else None
+                ok = True
+                why = ''
+        n += 1
+        chk.ob('R07.11', f, f.ln, ok, '%s binds a value to a declared type: when that type is long an int value is widened (%s)' % (f.short, why or 'ok'), key='widen:' + f.short + ':' + f.sig[:40])
+    # early-outs: no return on "value is not an object reference" precedes the long test (an int is not an object reference)
+    for key, (idx, f) in sorted(stampers.items()):
+        vp = f.params[idx]['id']
+        top = f.body['body'] if f.body.get('k') == 'block' else []
+        pos_w = [i for i, st in enumerate(top) if any(c.get('k') == 'call' and c.get('callee') == W.name for c in SX.walk(st, into_lambdas=False))]
+        pos_r = [i for i, st in enumerate(top) if st.get('k') == 'if' and any(y.get('k') == 'return' for y in SX.walk(st.get('t'), into_lambdas=False)) and
+                 any(y.get('k') == 'ref' and y.get('kind') == 'enum' and y['name'].endswith('Type::Object') for y in SX.walk(st.get('c'))) and
+                 any(y.get('k') == 'ref' and y.get('id') == vp for y in SX.walk(st.get('c')))]
+        if not pos_w:
+            continue
+        chk.ob('R07.11', f, f.ln, not pos_r or min(pos_w) < min(pos_r), '%s: the test for a declared long comes before the early return for values that are not object references' % f.short,
+               key='widen-before-object-test:' + f.short + ':' + f.sig[:40], nontrivial=False)
+    asg = R.ev_method('assign')
+    g = prog.cfg(asg)
+    stores = []
+    for c in g.calls(lambda e: e['k'] == 'call' and SX.short(e.get('callee', '')) == 'storeInSlot'):
+        stores.append((c, SX.strip(SX.real_args(c.e)[1])))
+    for nd, l, r, op in g.writes():
+        l0 = SX.strip(l)
+        if op == '=' and SX.is_node(l0) and l0.get('k') == 'member' and l0.get('name') == 'value' and 'Value' in (l0.get('t') or ''):
+            stores.append((nd, SX.strip(r)))
+    for node, val in stores:
+        n += 1
+        ok = False
+        if SX.is_node(val) and val.get('k') == 'ref':
+            for c in g.calls(lambda e: e['k'] == 'call' and e.get('callee') == W.name):
+                if SX.strip(SX.real_args(c.e)[0]).get('id') == val.get('id') and node.id in g.reachable([c]) and \
+                        any('Long' in SX.show(ce) for ce, pol, _ in g.guards(c)):
+                    ok = True
+        chk.ob('R07.11', asg, node.ln or asg.ln, ok, 'assign stores %s into an existing slot: an int is widened first when the slot holds a long' % SX.show(val)[:20],
+               key='widen:assign:%s' % (SX.show(val)[:20]))
+    chk.count('binding sites that widen int to long', n, 4)
+
+
+def _cond_before(g, call_node, ret_node):
+    """the condition that guards call_node is evaluated on every path to ret_node"""
+    gs = g.guards(call_node)
+    if not gs:
+        return False
+    edge = gs[0][2]
+    conds = [x for x in g.nodes if x.kind == 'cond' and edge in x.succ]
+    return bool(conds) and g.dominates(conds[0], ret_node)
 
 
 def _handler(prog, ev, cls):
@@ -832,11 +934,13 @@ def _cast_table(prog, chk, ev):
     from ..kabs import Interp, Obj, Unsupported, Thrown, Ret
     hf, hblock, hvid, br0 = _handler(prog, ev, 'CastExpression')
     br = {'t': hblock, 'cv': {'id': hvid}, 'ln': br0.get('ln')}
-    SRC = {'Int': [3, 0, -4], 'Long': [5000000000, 0], 'Float': [2.7, -2.7, 0.0, 0.4], 'Bit': [1, 0]}
+    SRC = {'Int': [3, 0, -4], 'Long': [5000000000, 0], 'Float': [2.7, -2.7, 0.0, 0.4, 3000000000.5, -1099511627777.0], 'Bit': [1, 0]}
     mism, n = [], 0
     for tgt in ('Int', 'Long', 'Float', 'Bit'):
         for src, reps in SRC.items():
             for x in reps:
+                if tgt == 'Int' and isinstance(x, (int, float)) and abs(x) >= 2 ** 31:
+                    continue      # narrowing beyond 32 bits: "may lose precision", nothing documented to compare with
                 n += 1
                 inv = Interp(prog, {}).default_struct(prog.facts.records['bloch::runtime::Value'], {})
                 inv['type'] = RT + src
